@@ -27,12 +27,35 @@ type DiagramOpts struct {
 	Directions  bool
 	ObjectNears bool // near: <other object>
 	ASCIIOnly   bool
-	Canary      func(field string) string // if set, appended to every user string (C30)
+	// Tame restricts the diagram to the class on which the geometric properties are asserted
+	// strictly: rectangular undecorated containers, no self-loops, no connections ending at a
+	// container, no label/icon positions, no nested direction.
+	Tame           bool
+	NoKeywordNames bool                      // leave out object names that spell reserved keywords (compiler crash findings, C07)
+	Canary         func(field string) string // if set, appended to every user string (C30)
 }
 
 func FullDiagramOpts() DiagramOpts {
 	return DiagramOpts{MaxObjects: 14, MaxDepth: 3, MaxEdges: 12, Hostile: true, Shapes: true, Styles: true, Sizes: true, Labels: true,
 		Icons: true, Positions: true, Nears: true, Grids: true, Sequences: true, Tables: true, Links: true, Directions: true}
+}
+
+// TameDiagramOpts: see DiagramOpts.Tame.
+func TameDiagramOpts() DiagramOpts {
+	o := FullDiagramOpts()
+	o.NoKeywordNames = true
+	o.Tame = true
+	o.Positions = false
+	o.Sizes = false
+	o.Links = false
+	return o
+}
+
+// LayoutDiagramOpts is FullDiagramOpts without the names known to crash the compiler.
+func LayoutDiagramOpts() DiagramOpts {
+	o := FullDiagramOpts()
+	o.NoKeywordNames = true
+	return o
 }
 
 // DNode is one declared object.
@@ -174,6 +197,12 @@ func (g *dg) name(parent *DNode) (string, bool) {
 		var n string
 		if g.o.Hostile && !g.o.ASCIIOnly && Pick(t, "hostile", 3, 1) == 1 {
 			n = rapid.SampledFrom(diagramHostile).Draw(t, "hname")
+			if g.o.NoKeywordNames {
+				switch strings.ToLower(n) {
+				case "label", "shape", "style", "layers", "top", "null", "true":
+					n = "kw " + n
+				}
+			}
 			g.feat("hostile_name")
 		} else {
 			n = rapid.SampledFrom(diagramPlain).Draw(t, "pname")
@@ -392,6 +421,29 @@ func (g *dg) node(parent *DNode, depth int, inSpecial string) *DNode {
 			}
 		}
 	}
+	if len(n.Children) > 0 && g.o.Tame {
+		n.Shape = ""
+		var keep [][2]string
+		for _, a := range n.Attrs {
+			switch a[0] {
+			case "icon", "icon.near", "label.near", "direction", "style.stroke-width", "style.multiple", "style.3d", "style.shadow", "style.font-size", "tooltip", "link":
+			default:
+				keep = append(keep, a)
+			}
+		}
+		n.Attrs = keep
+	}
+	if len(n.Children) > 0 {
+		// an explicit size on a container competes with the size its content needs; the
+		// properties about sizes and containment speak of leaf shapes only
+		var keep [][2]string
+		for _, a := range n.Attrs {
+			if a[0] != "width" && a[0] != "height" {
+				keep = append(keep, a)
+			}
+		}
+		n.Attrs = keep
+	}
 	return n
 }
 
@@ -570,6 +622,9 @@ func GenDiagram(t *rapid.T, o DiagramOpts) *Diagram {
 				continue
 			}
 			if a == b && (a.Special != "" || gridOf(a) != nil) {
+				continue
+			}
+			if g.o.Tame && (a == b || len(a.Children) > 0 || len(b.Children) > 0 || a.Special != "" || b.Special != "") {
 				continue
 			}
 			// grid cells: edges across grid boundaries are restricted; keep edges within the same grid or fully outside
